@@ -2,6 +2,7 @@ import GoCrypt.Props.KdfProps
 import GoCrypt.Props.C11
 import GoCrypt.Props.C16
 import GoCrypt.Props.C17
+import GoCrypt.Props.KdfIR
 
 /-!
 # C05 — no input makes an exported function panic or hang
@@ -34,4 +35,15 @@ namespace GoCrypt.C05
 #print axioms GoCrypt.C16.decode_encode
 #print axioms GoCrypt.C17.enc_err_sticky
 
+-- the KDF bodies ARE the current code (Props/KdfIR.lean): the hash-transcript IR regenerated from md5crypt.Encrypt, sha2crypt.Encrypt/duplicate,
+-- cryptoutil.Permute and the HMAC loop of sha1.Key, interpreted generically in H, equals the hand-written skeletons for all inputs (panics included)
+#print axioms GoCrypt.KdfIR.md5crypt_ir_eq_model
+#print axioms GoCrypt.KdfIR.sha2crypt_ir_eq_model
+#print axioms GoCrypt.KdfIR.sha256crypt_ir_eq_model
+#print axioms GoCrypt.KdfIR.sha512crypt_ir_eq_model
+#print axioms GoCrypt.KdfIR.sha2crypt_ir_unsupported_hash
+#print axioms GoCrypt.KdfIR.sha2crypt_ir_zero_rounds
+#print axioms GoCrypt.KdfIR.duplicate_ir_eq_model
+#print axioms GoCrypt.KdfIR.permute_ir_eq_model
+#print axioms GoCrypt.KdfIR.sha1_ir_eq_model
 end GoCrypt.C05
